@@ -156,8 +156,12 @@ static void do_layout(char** w, int nw) {
 /* many <presleep_ms> <spec>*   spec: e<code>[:delay_ms] | s<sig>[:delay_ms] */
 static void do_many(char** w, int nw) {
   int pre = atoi(w[1]), i, n = nw - 2;
+  sigset_t chld, old;
   if (n > MAXP) { fprintf(out, "bad-op\n"); return; }
   ncb = 0; nprocs = n;
+  /* presleep: SIGCHLD stays blocked until all children are dead, so the kernel delivers ONE signal for all */
+  sigemptyset(&chld); sigaddset(&chld, SIGCHLD);
+  if (pre) pthread_sigmask(SIG_BLOCK, &chld, &old);
   for (i = 0; i < n; i++) {
     uv_process_options_t opt; char* args[6]; char* s = w[2 + i]; char* d = strchr(s, ':'); char num[32]; int rc;
     memset(&opt, 0, sizeof opt);
@@ -169,7 +173,7 @@ static void do_many(char** w, int nw) {
     pids[i] = rc == 0 ? uv_process_get_pid(&procs[i]) : -1;
     if (rc) fprintf(out, "spawn-error %d %s\n", i, uv_err_name(rc));
   }
-  if (pre) usleep(pre * 1000);        /* children exit before the loop ever runs: SIGCHLDs coalesce */
+  if (pre) { usleep(pre * 1000); pthread_sigmask(SIG_SETMASK, &old, NULL); }
   run_until(n, 20000);
   uv_run(loop, UV_RUN_DEFAULT);
   fprintf(out, "cbs %d\n", ncb);
